@@ -24,6 +24,7 @@ from scapy.config import conf
 
 from whad.protocol.whad_pb2 import Message
 from .registry import Registry
+from .exceptions import UnsupportedVersionException
 
 logger = logging.getLogger(__name__)
 
@@ -173,14 +174,23 @@ class ProtocolHub(Registry):
         # Identify the message base type and ensure the corresponding
         # factory has been loaded.
         msg_type = msg.WhichOneof('msg')
+        if msg_type is None:
+            logger.debug("Empty message received (no message type set): %s", data)
+            return None
         if msg_type not in self.__cache:
             self.__cache[msg_type] = self.load(msg_type)
 
         # Process incoming message, forward to corresponding sub-registries
-        # following the defined registry hierarchy.
-        return ProtocolHub.bound(
-            msg.WhichOneof('msg'),
-            self.__version).parse(self.__version, msg)
+        # following the defined registry hierarchy. A message we cannot map
+        # to a known wrapper (no message type set, or unknown type for this
+        # version) is not a message we can handle: return None.
+        try:
+            return ProtocolHub.bound(
+                msg.WhichOneof('msg'),
+                self.__version).parse(self.__version, msg)
+        except UnsupportedVersionException:
+            logger.debug("Unsupported or empty message received: %s", data)
+            return None
 
     def convert_packet(self, packet):
         """Convert packet to the corresponding message.
